@@ -44,7 +44,7 @@ import (
 )
 
 type job struct {
-	GoSrc  string   // WaGo source with N case functions (rendered to .wa and .wz by the worker)
+	GoSrc  string // WaGo source with N case functions (rendered to .wa and .wz by the worker)
 	N      int
 	Wa, Wz string   // or: explicit texts (hand-written pair), run through api.RunCode (func main / 函数·主控)
 	Must   []string // spellings the Chinese text has to contain
@@ -791,7 +791,7 @@ func compareCase(r *mc.Run, u unitRef, res jobRes, ci int) (rerun []int) {
 		r.Evals.Add(1)
 		key := "C09|corpus|" + it.Key + "|output"
 		what := u.fam + "/" + u.g.Name + " " + it.Desc
-		replay := map[string]interface{}{"family": u.fam, "group": u.g.Name, "item": it.Desc, "stmts": it.Stmts}
+		replay := map[string]interface{}{"family": u.fam, "group": u.g.Name, "item": it.Desc, "stmts": it.Stmts, "case": ci, "wa": res.WaText, "wz": res.WzText}
 		switch {
 		case k < an && k < bn:
 			ao, bo := normOut(as[k], false), normOut(bs[k], true)
